@@ -47,6 +47,9 @@ func genBFConfig(r *common.Rand) (m, w, b, p int) {
 	if r.Intn(25) == 0 {
 		m = 0
 	}
+	if r.Intn(30) == 0 {
+		w = 0 // empty window: every failure is pruned at once, only the lifetime count can ban
+	}
 	return
 }
 
@@ -419,7 +422,28 @@ func hsRate(burst int) int {
 	return 0
 }
 
-var kinds = []string{"anonOk", "anonFail", "unknown", "noChallenge", "badResp", "good", "phase1"}
+var kinds = []string{"anonOk", "anonFail", "unknown", "noChallenge", "badResp", "good", "phase1", "expired"}
+
+// hsTok: a handshake attempt token; the 4th field says how the harness presents it (remote address as
+// 16-byte TCP, 4-byte TCP, UDP, or a generic "host:port" net.Addr; token spelling for ClientID 0) —
+// the same model event whatever the presentation.
+func hsTok(r *common.Rand, ip int, k string) string {
+	form := common.Pick(r, []string{"", "", "tcp4", "udp", "str"})
+	suffix := ""
+	switch k {
+	case "anonOk":
+		suffix = common.Pick(r, []string{"", ".anon"})
+	case "anonFail":
+		suffix = common.Pick(r, []string{"", ".anon", ".tok"})
+	}
+	if form == "" && suffix == "" {
+		return fmt.Sprintf("h:%d:%s", ip, k)
+	}
+	if form == "" {
+		form = "tcp16"
+	}
+	return fmt.Sprintf("h:%d:%s:%s%s", ip, k, form, suffix)
+}
 
 func genHS(r *common.Rand) string {
 	m, w, b, p := genBFConfig(r)
@@ -437,7 +461,7 @@ func genHS(r *common.Rand) string {
 			if failHeavy && r.Bool() {
 				k = common.Pick(r, []string{"unknown", "noChallenge", "badResp", "anonFail"})
 			}
-			tl.add("h:%d:%s", ip, k)
+			tl.add("%s", hsTok(r, ip, k))
 		case x < 80:
 			ipmEvent(r, tl, "i:")
 		case x < 88:
@@ -463,11 +487,11 @@ func genHSLocked(r *common.Rand) string {
 	ip := addrs[0]
 	tl := &tlb{t: tick}
 	for i := 0; i < m; i++ {
-		tl.add("h:%d:%s", ip, common.Pick(r, []string{"unknown", "noChallenge", "badResp", "anonFail"}))
+		tl.add("%s", hsTok(r, ip, common.Pick(r, []string{"unknown", "noChallenge", "badResp", "anonFail"})))
 	}
 	bt := (b - 10) / tick
 	for i := 0; i <= bt+1; i++ {
-		tl.add("h:%d:%s", ip, common.Pick(r, kinds))
+		tl.add("%s", hsTok(r, ip, common.Pick(r, kinds)))
 		if r.Intn(4) == 0 {
 			tl.add("p:u:%d", ip)
 		}
@@ -507,10 +531,95 @@ func exhaustive(prefix string, alphabet []string, closing string, n int) []strin
 	return out
 }
 
+// ---- the shipped defaults (nil configuration, as the server wires the components)
+
+// 5 failures ban, 20 ban for ever; windows and ban periods are minutes, so only counts are exercised.
+func genBFDefault(r *common.Rand) string {
+	tl := &tlb{t: tick}
+	nip := 1 + r.Intn(2)
+	n := 8 + r.Intn(40)
+	for i := 0; i < n; i++ {
+		ip := addrs[r.Intn(nip)]
+		switch x := r.Intn(100); {
+		case x < 62:
+			tl.add("f:%d", ip)
+		case x < 82:
+			tl.add("q:%d", ip)
+		case x < 87:
+			tl.add("s:%d", ip)
+		case x < 93:
+			tl.add("c")
+		default:
+			tl.add("u:%d", ip)
+		}
+		if r.Intn(4) == 0 {
+			tl.adv(r.Intn(3))
+		}
+	}
+	return "bfd " + strings.Join(tl.evs, " ")
+}
+
+// 10 tokens/s, burst 20: a burst at one instant, then calls spaced so that the token count is never
+// within 0.1 of one token (same filter as genRL).
+func genRLDefault(r *common.Rand) string {
+	const rate, burst = 10, 20
+	tl := &tlb{t: tick}
+	milli, last, fresh := burst*1000, tick, true
+	n := 22 + r.Intn(30)
+	for i := 0; i < n && !tl.full(); i++ {
+		u := milli + (tl.t-last)*rate
+		m := u
+		if m > burst*1000 {
+			m = burst * 1000
+		}
+		slack := rate*10 + 1
+		if fresh || u-burst*1000 >= slack || m-1000 >= slack || 1000-m >= slack {
+			tl.add("a:%d", addrs[0])
+			if m >= 1000 {
+				m -= 1000
+			}
+			milli, last, fresh = m, tl.t, false
+		}
+		if r.Intn(100) < 8 {
+			tl.add("c")
+		}
+		tl.adv(common.Pick(r, []int{0, 0, 0, 0, 0, 0, 1, 2, 4, 7}))
+	}
+	return "rld " + strings.Join(tl.evs, " ")
+}
+
+// handshakes against the default wiring: 5 failed attempts lock the address; more than 20 anonymous
+// registrations at one instant are rate limited (all registrations sit on one grid point, so the
+// bucket never comes near one token again within the case).
+func genHSDefault(r *common.Rand) string {
+	tl := &tlb{t: tick}
+	ip, other := addrs[0], addrs[1]
+	if r.Bool() {
+		for i := 0; i < 19+r.Intn(6); i++ {
+			tl.add("%s", hsTok(r, ip, "anonOk"))
+		}
+		tl.adv(r.Intn(2))
+	}
+	for i := 0; i < 3+r.Intn(5); i++ {
+		tl.add("%s", hsTok(r, ip, common.Pick(r, []string{"unknown", "noChallenge", "badResp", "expired", "phase1", "good"})))
+		if r.Intn(3) == 0 {
+			tl.adv(1)
+		}
+	}
+	for i := 0; i < 2+r.Intn(4); i++ {
+		tl.add("%s", hsTok(r, common.Pick(r, []int{ip, other}), common.Pick(r, []string{"good", "unknown", "badResp", "phase1", "expired"})))
+		if r.Intn(3) == 0 {
+			tl.add("p:u:%d", ip)
+			tl.add("p:c")
+		}
+	}
+	return "hsd " + strings.Join(tl.evs, " ")
+}
+
 func generate(r *common.Rand, tier string) []job {
 	mult := 1
 	if tier == "thorough" {
-		mult = 14
+		mult = 11
 	}
 	var jobs []job
 	add := func(n int, kind string, g func(*common.Rand) string) {
@@ -540,6 +649,9 @@ func generate(r *common.Rand, tier string) []job {
 		jobs = append(jobs, job{"", c, "ip-reload-exhaustive"})
 	}
 	add(220, "rl", genRL)
+	add(60, "bf-default-config", genBFDefault)
+	add(40, "rl-default-config", genRLDefault)
+	add(60, "hs-default-config", genHSDefault)
 	add(240, "hs-random", genHS)
 	add(80, "hs-locked", genHSLocked)
 	return jobs
